@@ -69,7 +69,7 @@ def dialect_cell(stream, abstract, src):
     if stream == "arms":
         a = abstract
         names = {n for m in a["ms"] for n in m} | set(a["fs"])
-        return {"dt": a["dt"], "kind": kind_class(a["tn"]), "tparam": a["tparam"], "hint": a["hint"], "shape": a["shape"],
+        return {"stream": "arms", "dt": a["dt"], "kind": kind_class(a["tn"]), "tparam": a["tparam"], "hint": a["hint"], "shape": a["shape"],
                 "bare_parent": "parent0" in names, "param_parent": bool(names & {"parentp", "parentp_idx"}), "ghosts": ("ghosts" in names or "ghosts_idx" in names or a["textra"].startswith("ghosts")),
                 "lit_or_pat": bool(names & {"literal", "pattern"}), "child": "child" in names or a["textra"].startswith("cp_"), "type_hint": bool(names & {"hint_s", "hint_t", "hint_u"}),
                 "map_idx": "map_idx" in names}
